@@ -104,6 +104,7 @@ type zzC12 struct {
 	w        *zzWorld
 
 	closeStim   int
+	restarts    int // graceful restarts (with downtime) so far
 	sawFC       bool
 	postBlocks  int
 	lastFCCount int
@@ -217,8 +218,17 @@ func (x *zzC12) enabled() []string {
 	if !w.frozen && x.ioFaults < 2 {
 		ops = append(ops, "block!io")
 	}
+	// Restart with downtime (always the LAST op of the list, so that the
+	// indexes older tapes recorded keep their meaning): the node is stopped,
+	// 0-8 blocks pass, it is started again at the new height. Only while it
+	// has not gone on chain: "does it still go on chain in time" is the
+	// question; what happens to a close that is under way is C13's.
+	canRestart := !w.frozen && fc == 0 && x.restarts < 2
 	// close triggers are the rarer choice (a zeroed draw means none)
 	if !x.r.Chance(1, 3) {
+		if canRestart {
+			ops = append(ops, "restart")
+		}
 		return ops
 	}
 	if !w.userAsked {
@@ -238,6 +248,9 @@ func (x *zzC12) enabled() []string {
 	ops = append(ops, "close-breach")
 	if m.live() == 0 && fc == 0 {
 		ops = append(ops, "close-coop")
+	}
+	if canRestart {
+		ops = append(ops, "restart")
 	}
 	return ops
 }
@@ -274,6 +287,23 @@ func (x *zzC12) apply(op string) {
 		}
 		w.kv.FiredFail = 0
 		w.kv.Disarm()
+	case "restart":
+		// graceful stop, downtime, start: the arbitrator is rebuilt from
+		// its log (StateDefault) with the HTLC sets the channel holds now
+		// and is handed the current height; its uptime starts again.
+		d := r.Draw(9)
+		x.restarts++
+		w.kill()
+		w.height += uint32(d)
+		w.clk.SetTime(w.clk.Now().Add(time.Duration(d) * w.cfg.perBlock))
+		w.nextStim(fmt.Sprintf("node restarts after %d block(s) of downtime, height=%d", d, w.height))
+		r.Count("fault_restart_with_downtime")
+		if x.mustClose() != "" {
+			r.Count("probe_restart_past_a_broadcast_cut_off")
+		}
+		before := x.fcCount()
+		w.boot()
+		x.afterBlockLike(before)
 	case "link-up":
 		w.nextStim("the channel's link comes up (peer reconnected)")
 		w.linkUps++
